@@ -24,9 +24,9 @@ THEOREMS = ['PV.C10.' + t for t in [
   'literal_min_width', 'literal_min_width_int', 'literal_min_width_neg', 'width_sound', 'subexpr_accepted',
   'width_sound_subexpr', 'explicit_final_width',
   'no_width_error', 'stmt_no_width_error', 'block_no_width_error', 'explicit_mismatch_rejected',
-  'assign_mismatch_rejected', 'mismatch_raises', 'check_implies_WT', 'check_implies_WT_stmt',
-  'F4_counterexample', 'F12_counterexample', 'F12_negative_counterexample', 'N1_counterexample',
-  'N2_counterexample', 'N3_counterexample', 'N4_counterexample', 'N5_counterexample',
+  'assign_mismatch_rejected', 'implicit_rhs_fits', 'mismatch_raises', 'check_implies_WT', 'check_implies_WT_stmt',
+  'F12_counterexample', 'F12_negative_counterexample', 'N1_counterexample', 'N4_counterexample',
+  'F4_rejected', 'N2_rejected', 'N3_repaired', 'N5_rejected',
 ]]
 TRUSTED = [
   'Model/TC.lean follows BehavioralRTLIRTypeCheckL1/L2Pass (visitor + enforcer), RTLIRDataType._get_nbits_from_value / get_index_width; '
@@ -36,26 +36,27 @@ TRUSTED = [
   'the direct oracle classifies ValueError messages of PythonBits as width / range / other by their text',
 ]
 ASSUMPTIONS = [
-  'core language: Bits signals (ports of the component), int literals / int and Bits free constants, loop and temporary variables, '
-  '~ unary-minus + - * & | ^ % << >>, comparisons, if-expressions, BitsN casts, zext/sext/trunc (int and BitsN width), reduce_*, '
-  'concat, bit index, constant and lo:lo+N slices, @= assignments to signals / bits / slices, temporaries, if, for over constant ranges; '
-  'not modelled: / ** unary + (no Bits method: TypeError), struct fields, interfaces, sub-component ports, arrays, <<= in update_ff '
-  '(same __ilshift__ checks as @=), widths >= 1024',
-  'theorems need the block to be clean (Model/TCSpec.lean): every excluded shape is either an exclusion of the property itself '
-  '(width-changing cast, misaligned shift) or a soundness hole of the checker with a Lean counter-example (F4, F12, N1..N5) or '
-  'a shape outside the proof only (lo:lo+N slices, non-integer constant slice bounds, widths >= 1024)',
+  'core language: Bits signals (ports of the component), int literals / module-level int constants / Bits constants held as component '
+  'attributes, loop and temporary variables, ~ unary-minus + - * & | ^ % << >>, comparisons, if-expressions, BitsN casts, '
+  'zext/sext/trunc (int and BitsN width), reduce_*, concat, bit index, constant and lo:lo+N slices, @= assignments to signals / bits / '
+  'slices, temporaries, if, for over constant ranges; not modelled: / ** unary + (no Bits method: TypeError), module-level Bits '
+  'constants (FreeVar nodes), struct fields, interfaces, sub-component ports, arrays, <<= in update_ff (same __ilshift__ checks as @=), '
+  'widths >= 1024',
+  'the theorems need the block to be clean (Model/TCSpec.lean, issuesS = []): every excluded shape is either an exclusion of the '
+  'property itself (width-changing cast, misaligned shift), a soundness hole of the checker with a Lean counter-example '
+  '(F12 implicit arithmetic, N1 temporary assigned both a literal and a signal, N4 arithmetic between if-expressions with a literal '
+  'branch) or a shape outside the proof only (slices whose bounds are not plain integer expressions, widths >= 1024); '
+  'F4, N2, N3, N5 were repaired in /repo and the model follows the repaired rules',
 ]
 RULE = ('streams: typed (type-directed terms, no injected defects), noisy (same with width/literal defects injected at each choice point), '
-        'wild (unconstrained small terms, mostly rejected), one labelled stream per known hole (F4, F12, N1..N5), directed corpus; '
+        'wild (unconstrained small terms, mostly rejected), one labelled stream per known hole (F12, N1, N4) and per repaired one (F4, N2, N3, N5: must now be rejected / clean), directed corpus; '
         'signal values boundary-biased; non-trivial = elaborated and checked by the real passes; distinct = distinct case tuple')
 
-FINDING_OF_ISSUE = [('rhsWide', 'F4-implicit-rhs-too-wide'), ('implArith', 'F12-implicit-arith'),
-                    ('tmpFlip', 'N1-tmpvar-explicit-flip'), ('iteWidth', 'N2-ifexp-implicit-orelse-wider'),
-                    ('explFold', 'N3-explicit-const-fold'), ('softArith', 'N4-soft-int-arith'),
-                    ('iteBool', 'N5-ifexp-bool-branch')]
-FINDING_OF_STREAM = {'F4': 'F4-implicit-rhs-too-wide', 'F12': 'F12-implicit-arith', 'N1': 'N1-tmpvar-explicit-flip',
-                     'N2': 'N2-ifexp-implicit-orelse-wider', 'N3': 'N3-explicit-const-fold', 'N4': 'N4-soft-int-arith',
-                     'N5': 'N5-ifexp-bool-branch'}
+# known soundness holes of the checker that are NOT repaired (known findings); F4, N2, N3, N5 were repaired
+# in /repo: their former witness streams ('F4', 'N2', 'N3', 'N5') are ordinary cases now (no finding label)
+FINDING_OF_ISSUE = [('implArith', 'F12-implicit-arith'), ('tmpFlip', 'N1-tmpvar-explicit-flip'),
+                    ('softArith', 'N4-soft-int-arith')]
+FINDING_OF_STREAM = {'F12': 'F12-implicit-arith', 'N1': 'N1-tmpvar-explicit-flip', 'N4': 'N4-soft-int-arith'}
 
 # ------------------------------------------------------------------ real side
 
@@ -217,6 +218,26 @@ class Walk:
     elif k == 'for':
       self.stmts(path + ['b'], g[5], r.body, a[2])
 
+def real_exclusions(rtlir):
+  """casts and shifts of the REAL annotated tree alone (no generator term, no model)"""
+  R = real()
+  w = types.SimpleNamespace(casts=[], shifts=[])
+  seen = set()
+  def go(n):
+    if id(n) in seen: return
+    seen.add(id(n))
+    cls = type(n).__name__
+    if cls == 'SizeCast': w.casts.append((int(n.nbits), rann(n.value)))
+    if cls == 'BinOp' and type(n.op).__name__ in ('ShiftLeft', 'ShiftRightLogic'): w.shifts.append((rann(n.left), rann(n.right)))
+    for f, v in vars(n).items():
+      if f in ('ast', 'component'): continue
+      if isinstance(v, R.bir.BaseBehavioralRTLIR): go(v)
+      elif isinstance(v, list):
+        for x in v:
+          if isinstance(x, R.bir.BaseBehavioralRTLIR): go(x)
+  go(rtlir)
+  return excluded(w)
+
 def excluded(w):
   """the property's own exclusions, decided on the REAL annotations: explicit width-changing cast, misaligned shift"""
   why = []
@@ -293,13 +314,31 @@ def int_bound(e, lvmax):
     return l + r
   return None
 
+def certainly_bits(e, tdefs):
+  k = e[0]
+  if k in ('sig', 'cast', 'ext', 'red', 'catn', 'idx', 'slc'): return True
+  if k == 'un': return e[1] == 'inv' and certainly_bits(e[2], tdefs)
+  if k == 'bin':
+    if e[1] in ('shl', 'shr'): return certainly_bits(e[2], tdefs)
+    return certainly_bits(e[2], tdefs) or certainly_bits(e[3], tdefs)
+  if k == 'cmp': return certainly_bits(e[2], tdefs) or certainly_bits(e[3], tdefs)
+  if k == 'ite': return certainly_bits(e[2], tdefs) and certainly_bits(e[3], tdefs)
+  if k == 'tmp':
+    ds = tdefs.get(e[1], [])
+    return bool(ds) and all(certainly_bits(d, {}) for d in ds)
+  return False
+
 def safe_case(case):
-  """no constant shift amounts that would make Python (or the model) build astronomically large ints"""
+  """no constant shift amounts that would make Python (or the model) build astronomically large ints;
+  no reduce_xor of something that may be a negative Python int (helpers.reduce_xor loops for ever on it)"""
   lvmax = {}
   for i, a, b, c in loops_of(case['block']):
     lvmax[i] = max(abs(a), abs(b), 8)
   ok = [True]
+  tdefs = {}
+  for t, d in G.tmp_defs(case['block']): tdefs.setdefault(t, []).append(d)
   def see(e):
+    if e[0] == 'red' and e[1] == 'xor' and not certainly_bits(e[2], tdefs): ok[0] = False
     if e[0] == 'bin' and e[1] == 'shl':
       r = int_bound(e[3], lvmax); l = int_bound(e[2], lvmax)
       if r is not None and r > 300 and l is not None: ok[0] = False
@@ -327,13 +366,29 @@ def simulate(cls, case, vectors):
 
 # ------------------------------------------------------------------ one batch
 
+REPAIRED_STREAMS = {'F4': 'regression-F4-implicit-rhs-too-wide', 'N2': 'regression-N2-ifexp-width',
+                    'N3': 'regression-N3-explicit-const-fold', 'N5': 'regression-N5-ifexp-bool-branch'}
+
 def finding_sig(case, issues):
   if case['stream'] in FINDING_OF_STREAM: return FINDING_OF_STREAM[case['stream']]
+  if case['stream'] in REPAIRED_STREAMS: return REPAIRED_STREAMS[case['stream']]
   for iss, f in FINDING_OF_ISSUE:
     if iss in issues: return f
   return 'unexplained'
 
+def _watchdog(signum, frame):
+  raise InfraError('C10: evaluation of a generated block on the real code did not finish within 60 s')
+
 def process(ck, cases, nvec):
+  import signal
+  signal.signal(signal.SIGALRM, _watchdog)
+  signal.alarm(60)
+  try:
+    _process(ck, cases, nvec)
+  finally:
+    signal.alarm(0)
+
+def _process(ck, cases, nvec):
   rng = ck.rng
   cases = [c for c in cases if safe_case(c)]
   if not cases: return
@@ -362,16 +417,16 @@ def process(ck, cases, nvec):
       parsed = leanio.parse_sexp(mc)
       res['issues'] = list(parsed[2])
       res['mas'] = parsed[1]
+    if verdict == 'ok':
+      res['excl'] = real_exclusions(rtlir)
     if verdict == 'ok' and mverdict == 'ok':
       w = Walk(); w.stmts([], c['block'], rtlir.body, res['mas'])
-      res['walk'] = w; res['excl'] = excluded(w)
+      res['walk'] = w
+      if excluded(w) != res['excl']: raise InfraError('C10: the two walks of the real tree disagree on casts/shifts')
       ck.hist('rtlir_nodes_compared', min(60, w.nodes // 5 * 5))
       ck.hist('accepted_blocks', 'clean' if not res['issues'] else '+'.join(sorted(res['issues'])))
       def see(e): ck.hist('node_kinds_in_accepted', e[0] if e[0] not in ('bin', 'un', 'ext') else e[0] + ':' + e[1])
       for ex, _ in G.top_exprs(c['block']): G.walk_exprs(ex, see)
-    elif verdict == 'ok':
-      # model rejected, real accepted: still need the real annotations for the oracle
-      res['walk'] = None
     # (2) sub-expression evaluation: model lines + real evaluation
     loc, rho = make_env(rng, c, mod)
     res['env'] = rho
@@ -406,7 +461,7 @@ def process(ck, cases, nvec):
     if res['verdict'] == 'ok':
       bad = [(init, r) for init, r in res.get('sims', []) if r[0] == 'err' and is_width_err(r[1])]
       issues = res['issues']
-      if bad and not res['excl'] and res['walk'] is not None:
+      if bad and not res['excl']:
         f = finding_sig(c, issues)
         ck.hist('violations', f + ' @' + c['stream'])
         ck.violation('accepted-block-raises-width-error', {'finding': f},
@@ -420,7 +475,7 @@ def process(ck, cases, nvec):
         ck.violation('static-width-differs-from-runtime-nbits', {'finding': f}, {'case': c, 'env': res['env']},
                      {'oracle': 'explicitly sized RTLIR node: static width vs nbits of the Python value',
                       'nodes(src, static, runtime)': res['width_viol'][:3], 'source': G.class_source(c)[1], 'model_issues': issues})
-      elif c['stream'] in FINDING_OF_STREAM and res['walk'] is not None:
+      elif c['stream'] in FINDING_OF_STREAM:
         ck.hist('labelled_without_failure', c['stream'])
       if bad and res['excl']: ck.hist('excluded_raises', '+'.join(res['excl']))
   # ---- then model vs implementation
@@ -580,7 +635,7 @@ def run(ck):
       uid[0] += 1
       cs.append(f(uid[0]))
     process(ck, cs, nvec)
-  rounds = 6 if quick else 90
+  rounds = 14 if quick else 40
   per = 110 if quick else 300
   for _ in range(rounds):
     batch(per, lambda u: G.gen_typed(rng, u, 0.0, 'typed'))
@@ -588,10 +643,15 @@ def run(ck):
     batch(per // 2, lambda u: G.gen_wild(rng, u))
     for which in ('F4', 'F12', 'N1', 'N2', 'N3', 'N4', 'N5'):
       batch(6 if quick else 20, lambda u: G.gen_finding(rng, u, which))
-    if len(ck.breaks) > 50 or sum(1 for v in ck.violations if v.signature.get('finding') in ('unexplained', 'literal-width')) > 20: break
+    if len(ck.breaks) > 50 or sum(1 for v in ck.violations if v.signature.get('finding') not in FINDING_OF_STREAM.values()) > 20: break
 
 def replay(ck, data):
   case = data['case']
+  if isinstance(case, list) and case and case[0] == 'nbits':
+    from pymtl3.passes.rtlir.rtype import RTLIRDataType as rdt
+    v = case[1]; a = int(rdt._get_nbits_from_value(v))
+    print(f'_get_nbits_from_value({v}) = {a}; least width = {least_width(v)}; model: ' + ck.drv('tc').batch([leanio.line('tc', 'nbits', v)])[0])
+    return 0 if v < 0 or a == least_width(v) else 1
   if isinstance(case, dict) and 'case' in case: case = case['case']
   if not isinstance(case, dict) or 'block' not in case:
     print('no replayable block in', data.get('kind')); return 0
